@@ -270,7 +270,7 @@ class Gen:
             kids.append({"NP": self.NP, "AP": self.AP, "VP": self.VP}[of](d - 1) if r.random() < 0.8 else self.T(r.choice(["Pro", "N", "A"])))
         s = call("CP", ",".join(kids), self.larg())
         if r.random() < 0.15:
-            s += r.choice(['.n("p")', '.g("f")', ".pe(2)", '.t("ps")', '.f("co")'])
+            s += r.choice(['.n("p")', '.g("f")', ".pe(2)", '.t("ps")', '.f("co")', '.ow("p")', '.c("gen")', '.tn("")', '.aux("êt")', ".pe('1')"])
         return s + self.fmt_opts()
 
     def subject(self, d):
